@@ -1057,3 +1057,63 @@ class EngineTheory(Theory):
                     raise OutOfSubset('f-string form', e)
             cur = nxt
         return [(s2, SV('Str', acc[0] if len(acc) == 1 else '(str.++ %s)' % ' '.join(acc))) for s2, acc in cur]
+
+
+class AtomStoreTheory(EngineTheory):
+    """EngineTheory plus the atom table `YP._atom_store` (name -> Atom object): two ghost components
+         ahas  (Array String Bool)     the name is a key of the table
+         aname (Array String String)   the name of the Atom object stored under the key
+    Used only to verify `YP.atom` against its own contract (contracts/engine_atom.py). Everywhere else `atom` is the pure function
+    name -> (TAtom name): sound because the table is read by `atom` alone (AST obligation `_atom_store.encapsulated`) and the
+    representation invariant (every key holds the atom of that name) is established by `{}` and preserved by `atom`."""
+    COMPS = COMPS + [('ahas', '(Array String Bool)'), ('aname', '(Array String String)')]
+
+    def attr_read(self, ex, base, attr, st, node):
+        if base.sort == 'YP' and attr == '_atom_store':
+            return [(st, SV('AStore', None))]
+        return EngineTheory.attr_read(self, ex, base, attr, st, node)
+
+    def attr_write(self, ex, base, attr, v, st, node):
+        if base.sort == 'YP' and attr == '_atom_store' and v.sort == 'PyDict' and not v.meta.get('items'):
+            st.comp['ahas'] = '((as const (Array String Bool)) false)'
+            return [(st, None)]
+        return EngineTheory.attr_write(self, ex, base, attr, v, st, node)
+
+    def havoc_sv(self, ex, st, v, hint):
+        if v.sort == 'AStore':
+            return v
+        return EngineTheory.havoc_sv(self, ex, st, v, hint)
+
+    def apply_method(self, ex, e, base, meth, args, st):
+        if base.sort == 'AStore' and meth == 'setdefault' and len(args) == 2 and args[0].sort == 'Str' and args[1].sort == 'Term':
+            k, v = args[0].e, args[1].e
+            ex.oblige(st, 'safety.atom_table_holds_atoms', '((_ is TAtom) %s)' % v, 'safety')
+            has = '(select %s %s)' % (st.comp['ahas'], k)
+            old = st.comp['aname']
+            st.comp['aname'] = ITE(has, old, '(store %s %s (aname %s))' % (old, k, v))
+            st.comp['ahas'] = '(store %s %s true)' % (st.comp['ahas'], k)
+            return [(st, SV('Term', '(TAtom (select %s %s))' % (st.comp['aname'], k)))]
+        if base.sort == 'AStore' and meth == 'get' and len(args) == 1 and args[0].sort == 'Str':
+            k = args[0].e
+            a = st.fork().assume('(select %s %s)' % (st.comp['ahas'], k)).tag('present')
+            b = st.assume(NOT('(select %s %s)' % (st.comp['ahas'], k))).tag('absent')
+            return [(a, SV('Term', '(TAtom (select %s %s))' % (a.comp['aname'], k))), (b, NONE)]
+        return EngineTheory.apply_method(self, ex, e, base, meth, args, st)
+
+    def subscript(self, ex, e, base, idx, st):
+        if base.sort == 'AStore' and idx.sort == 'Str':
+            a = st.fork().assume('(select %s %s)' % (st.comp['ahas'], idx.e)).tag('present')
+            b = st.assume(NOT('(select %s %s)' % (st.comp['ahas'], idx.e))).tag('absent')
+            return [(a, SV('Term', '(TAtom (select %s %s))' % (a.comp['aname'], idx.e))), (b, Exc('KeyError'))]
+        return EngineTheory.subscript(self, ex, e, base, idx, st)
+
+    def store_subscript(self, ex, node, base, idx, v, st):
+        if base.sort == 'AStore' and idx.sort == 'Str' and v.sort == 'Term':
+            ex.oblige(st, 'safety.atom_table_holds_atoms', '((_ is TAtom) %s)' % v.e, 'safety')
+            st.comp['aname'] = '(store %s %s (aname %s))' % (st.comp['aname'], idx.e, v.e)
+            st.comp['ahas'] = '(store %s %s true)' % (st.comp['ahas'], idx.e)
+            return [(st, None)]
+        return EngineTheory.store_subscript(self, ex, node, base, idx, v, st)
+
+    def compare(self, ex, e, op, a, b, st):
+        return EngineTheory.compare(self, ex, e, op, a, b, st) if hasattr(EngineTheory, 'compare') else None
